@@ -248,3 +248,190 @@ theorem book_step_active {b : Book} (h : Inv b) (op : Op) (hv : ValidOp op) (hnf
   exact ⟨new, by rw [ht, h1]; rfl, h2⟩
 
 end Bourse
+
+namespace Bourse
+namespace Ref
+
+/-- The match loop appends records whose `passive` field is a member of the queue it walks (given
+that table indices are the orders' ids). -/
+theorem matchQ_passive (t : Nat) (q : List Nat) (st : MatchSt)
+    (hw : ∀ (id : Nat) (o : Order), st.orders[id]? = some o → o.id = id) :
+    ∃ new, (matchQ t q st).2.trades = st.trades ++ new ∧ ∀ tr ∈ new, tr.passive ∈ q := by
+  induction q generalizing st with
+  | nil => exact ⟨[], by simp [matchQ], by simp⟩
+  | cons j q ih =>
+    have stop : matchQ t (j :: q) st = (j :: q, st) →
+        ∃ new, (matchQ t (j :: q) st).2.trades = st.trades ++ new ∧ ∀ tr ∈ new, tr.passive ∈ j :: q := by
+      intro heq; rw [heq]; exact ⟨[], by simp, by simp⟩
+    cases hpass : st.orders[j]? with
+    | none => exact stop (by simp [matchQ, hpass])
+    | some pass =>
+      by_cases hcond : (decide (st.agg.vol > 0) && admits st.agg.side st.agg.price pass.price) = true
+      · let fill := min st.agg.vol pass.vol
+        let pass1 : Order := { pass with vol := pass.vol - fill }
+        let pass' : Order := if pass1.vol = 0 then { pass1 with status := .filled, endt := t } else pass1
+        let agg1 : Order := { st.agg with vol := st.agg.vol - fill }
+        let agg' : Order := if agg1.vol = 0 then { agg1 with status := .filled, endt := t } else agg1
+        let tr : Trade := { t := t, side := pass.side, price := pass.price, vol := fill, active := st.agg.id, passive := pass.id }
+        let st' : MatchSt := { orders := st.orders.set j pass', trades := st.trades ++ [tr],
+                               tradeVol := st.tradeVol + fill, agg := agg' }
+        have hunf : matchQ t (j :: q) st = if pass'.vol = 0 then matchQ t q st' else (j :: q, st') := by
+          simp only [matchQ, hpass, hcond, if_true]
+          rfl
+        have hpid : pass.id = j := hw j pass hpass
+        have hpid' : pass'.id = pass.id := by simp only [pass', pass1]; split <;> rfl
+        have hw' : ∀ (id : Nat) (o : Order), st'.orders[id]? = some o → o.id = id := by
+          intro id o ho
+          simp only [st'] at ho
+          by_cases hij : id = j
+          · subst hij
+            have hlt : id < st.orders.length := (List.getElem?_eq_some_iff.mp hpass).1
+            simp [hlt] at ho
+            rw [← ho, hpid', hpid]
+          · rw [List.getElem?_set_ne (Ne.symm hij)] at ho
+            exact hw id o ho
+        by_cases hz : pass'.vol = 0
+        · rw [hunf, if_pos hz]
+          obtain ⟨new, h1, h2⟩ := ih st' hw'
+          refine ⟨tr :: new, by rw [h1]; simp [st'], ?_⟩
+          intro x hx
+          rcases List.mem_cons.mp hx with rfl | hx
+          · simp [tr, hpid]
+          · exact List.mem_cons_of_mem _ (h2 x hx)
+        · rw [hunf, if_neg hz]
+          exact ⟨[tr], by simp [st'], by simp [tr, hpid]⟩
+      · apply stop
+        simp only [matchQ, hpass]
+        simp only [hcond, Bool.false_eq_true, if_false]
+
+/-- An arriving order trades only with members of the opposite queue. -/
+theorem enter_passive (s : RState) (hw : ∀ (id : Nat) (o : Order), s.orders[id]? = some o → o.id = id)
+    (agg : Order) (market : Bool) :
+    ∃ new, (enter s agg market).1.trades = s.trades ++ new ∧ ∀ tr ∈ new, tr.passive ∈ s.queue agg.side.opp := by
+  have hmp : ∃ new, (matchPhase s agg).1.trades = s.trades ++ new ∧ ∀ tr ∈ new, tr.passive ∈ s.queue agg.side.opp := by
+    unfold matchPhase
+    split
+    · exact matchQ_passive s.t (s.queue agg.side.opp)
+        { orders := s.orders, trades := s.trades, tradeVol := s.tradeVol, agg := agg } hw
+    · exact ⟨[], by simp, by simp⟩
+  obtain ⟨new, h1, h2⟩ := hmp
+  rw [enter_eq]
+  split
+  · exact ⟨[], by simp, by simp⟩
+  · split
+    · exact ⟨new, h1, h2⟩
+    · split
+      · exact ⟨new, h1, h2⟩
+      · exact ⟨new, by rw [setQueue_trades]; exact h1, h2⟩
+
+end Ref
+end Bourse
+
+namespace Bourse
+namespace Ref
+
+/-- The passive order of every record appended by a placement or a re-pricing was RESTING (queued,
+Active) before the operation. -/
+theorem place_passive (s : RState) (hq : QWf s) (id : Nat) :
+    ∃ new, (place s id).trades = s.trades ++ new ∧
+      ∀ tr ∈ new, ∃ o, s.orders[tr.passive]? = some o ∧ o.status = .active := by
+  unfold place
+  cases ho : s.orders[id]? with
+  | none => exact ⟨[], by simp, by simp⟩
+  | some o =>
+    simp only
+    split
+    · exact ⟨[], by simp, by simp⟩
+    · obtain ⟨new, h1, h2⟩ := enter_passive s hq.ids { o with status := .active, arr := s.t } (Book.isMarket o)
+      refine ⟨new, h1, ?_⟩
+      intro tr htr
+      obtain ⟨p, hp, hact, _⟩ := hq.qok _ _ (h2 tr htr)
+      exact ⟨p, hp, hact⟩
+
+theorem modify_passive (s : RState) (hq : QWf s) (id : Nat) (np nv : Option Nat) :
+    ∃ new, (modify s id np nv).trades = s.trades ++ new ∧
+      ∀ tr ∈ new, ∃ o, s.orders[tr.passive]? = some o ∧ o.status = .active := by
+  have same : modify s id np nv = s → ∃ new, (modify s id np nv).trades = s.trades ++ new ∧
+      ∀ tr ∈ new, ∃ o, s.orders[tr.passive]? = some o ∧ o.status = .active := by
+    intro heq; rw [heq]; exact ⟨[], by simp, by simp⟩
+  cases h0 : s.orders[id]? with
+  | none => exact same (by simp [modify, h0])
+  | some o =>
+    by_cases hg : Book.offGrid s.tick np = true
+    · exact same (by simp [modify, h0, hg])
+    · have hgf : Book.offGrid s.tick np = false := by simpa using hg
+      by_cases ha : o.status = .active
+      · by_cases hnn : np = none ∧ nv = none
+        · obtain ⟨rfl, rfl⟩ := hnn
+          exact same (by simp [modify, h0, hgf, ha])
+        · by_cases hred : (np.isNone && decide (nv.getD o.vol < o.vol)) = true
+          · have heq : modify s id np nv = { s with orders := s.orders.set id { o with vol := nv.getD o.vol } } := by
+              unfold modify
+              simp only [h0, hgf, Bool.false_eq_true, ↓reduceIte, ha, ne_eq, not_true_eq_false]
+              split
+              · exact absurd ⟨rfl, rfl⟩ hnn
+              · rw [if_pos hred]
+            rw [heq]; exact ⟨[], by simp, by simp⟩
+          · have heq : modify s id np nv =
+                { (enter (s.setQueue o.side ((s.queue o.side).erase id))
+                      { o with vol := nv.getD o.vol, price := np.getD o.price } false).1 with
+                  orders := (enter (s.setQueue o.side ((s.queue o.side).erase id))
+                      { o with vol := nv.getD o.vol, price := np.getD o.price } false).1.orders.set id
+                    (enter (s.setQueue o.side ((s.queue o.side).erase id))
+                      { o with vol := nv.getD o.vol, price := np.getD o.price } false).2 } := by
+              unfold modify
+              simp only [h0, hgf, Bool.false_eq_true, ↓reduceIte, ha, ne_eq, not_true_eq_false]
+              split
+              · exact absurd ⟨rfl, rfl⟩ hnn
+              · rw [if_neg hred]
+            have hids1 : ∀ (i : Nat) (x : Order), (s.setQueue o.side ((s.queue o.side).erase id)).orders[i]? = some x → x.id = i := by
+              intro i x hx; rw [setQueue_orders'] at hx; exact hq.ids i x hx
+            obtain ⟨new, h1, h2⟩ := enter_passive (s.setQueue o.side ((s.queue o.side).erase id)) hids1
+              { o with vol := nv.getD o.vol, price := np.getD o.price } false
+            rw [heq]
+            refine ⟨new, by simpa using h1, ?_⟩
+            intro tr htr
+            have hm := h2 tr htr
+            have hqo : (s.setQueue o.side ((s.queue o.side).erase id)).queue o.side.opp = s.queue o.side.opp := by
+              cases o.side <;> rfl
+            simp only at hm
+            rw [hqo] at hm
+            obtain ⟨p, hp, hact, _⟩ := hq.qok _ _ hm
+            exact ⟨p, hp, hact⟩
+      · exact same (by simp [modify, h0, hgf, ha])
+
+end Ref
+end Bourse
+
+namespace Bourse
+
+/-- Implementation model, every state satisfying the invariant: the passive order of every record
+appended by placing an existing order or by a modification was resting (Active) before the operation. -/
+theorem book_passive_was_resting {b : Book} (h : Inv b) (op : Op) (hv : ValidOp op) (hnf : (b.step op).1.faulted = false)
+    (hop : (∃ i, op = .place i) ∨ (∃ i, op = .ev (.new i)) ∨ (∃ i p v, op = .modify i p v) ∨ (∃ i p v, op = .ev (.modify i p v))) :
+    ∃ new, (b.step op).1.trades = b.trades ++ new ∧
+      ∀ tr ∈ new, ∃ e, b.orders[tr.passive]? = some e ∧ e.order.status = .active := by
+  have hs := step_refines h op hv hnf
+  have ht : (b.step op).1.trades = (Ref.step (abs b) op).1.trades := by
+    rw [← hs.1]; rfl
+  have hq := qwf_abs h
+  have key : ∃ new, (Ref.step (abs b) op).1.trades = (abs b).trades ++ new ∧
+      ∀ tr ∈ new, ∃ o, (abs b).orders[tr.passive]? = some o ∧ o.status = .active := by
+    rcases hop with ⟨i, rfl⟩ | ⟨i, rfl⟩ | ⟨i, p, v, rfl⟩ | ⟨i, p, v, rfl⟩
+    · exact Ref.place_passive (abs b) hq i
+    · exact Ref.place_passive (abs b) hq i
+    · exact Ref.modify_passive (abs b) hq i p v
+    · exact Ref.modify_passive (abs b) hq i p v
+  obtain ⟨new, h1, h2⟩ := key
+  refine ⟨new, by rw [ht, h1]; rfl, ?_⟩
+  intro tr htr
+  obtain ⟨o, ho, hact⟩ := h2 tr htr
+  rw [abs_get] at ho
+  cases he : b.orders[tr.passive]? with
+  | none => rw [he] at ho; cases ho
+  | some e =>
+    rw [he] at ho
+    simp only [Option.map_some, Option.some.injEq] at ho
+    exact ⟨e, rfl, by rw [ho]; exact hact⟩
+
+end Bourse
